@@ -1466,9 +1466,9 @@ pub fn gen_c03(ctx: &mut Ctx) {
         }
         // grow through the hand-over (h <= threshold) and the 5m switch, reading densely
         let mut n = 8u64;
-        let top = if ctx.tier_scale > 1 { 60 * m } else { (8 * m).min(400_000) };
+        let top = if ctx.tier_scale > 3 { 60 * m } else { (8 * m).min(400_000) };
         while n < top {
-            let step = (n / if ctx.tier_scale > 1 { 12 } else { 5 }).max(1);
+            let step = (n / if ctx.tier_scale > 3 { 12 } else { 5 }).max(1);
             ctx.op(format!("hll.addmany 1 {} {}", ctx.rng.clone().next(), step));
             n += step;
             ctx.op("hll.count 1".into());
